@@ -39,7 +39,7 @@ CHECKS['C02'] = dict(
    note=COMMON_NOTE + '; f64::powf (libm) is modelled exactly only for integral exponents, otherwise judged by a 50-digit decimal oracle', ref='DESIGN.md §5 C02')
 CHECKS['C03'] = dict(
    technique='Coq proof with Coquelicot (is_derive of the evaluated polynomial for both types, shape of derivative terms, closure of well-formedness under all derive/integrate entry points) + bit-for-bit differential correspondence through the real parsers + exact symbolic oracle',
-   text='11 theorems: c03_simple and c03_partial (the returned derivative evaluates to the true (partial) derivative at every point of the natural domain, terms without the variable vanish, no zero exponent remains), absent/multi-letter variables give the zero polynomial, c03_closed and c03_closed_univariate (results are well-formed and usable through every entry point, incl. constant polynomials, to any chain depth); chains of derive/integrate/evaluate to depth 3 compared bit for bit',
+   text='12 theorems: c03_simple_derivative_float_error (binary64 instance, Flocq: the evaluated derivative of the univariate type is within ((1+eps)^(2m+1) - 1) * sum k|c_k||x|^(k-1) of the exact derivative, for finite normal-range intermediates); in exact arithmetic: c03_simple and c03_partial (the returned derivative evaluates to the true (partial) derivative at every point of the natural domain, terms without the variable vanish, no zero exponent remains), absent/multi-letter variables give the zero polynomial, c03_closed and c03_closed_univariate (results are well-formed and usable through every entry point, incl. constant polynomials, to any chain depth); chains of derive/integrate/evaluate to depth 3 compared bit for bit',
    note=COMMON_NOTE, ref='DESIGN.md §5 C03')
 CHECKS['C04'] = dict(
    technique='Coq proof with Coquelicot (antiderivative property, zero constant of integration, analytical_integral = RInt, additivity and antisymmetry) + bit-for-bit differential correspondence + exact oracle',
